@@ -112,7 +112,7 @@ def site_of(ob):
 def finding_matches(fd, prop, ob):
     if fd.get("property") != prop:
         return False
-    if fd.get("obligation") != ob["name"].split("@")[0]:
+    if fd.get("obligation") != ob["name"]:
         return False
     units = fd.get("units")
     if units and ob["unit"] not in units:
@@ -286,7 +286,7 @@ def check_property(mod, world, tier="quick", seed=0):
     known_lines, reported = [], set()
     replays = []
     for ob in failing_prop:
-        key = (ob["name"].split("@")[0],)
+        key = (ob["name"],)
         matched = [fd for fd in kf.get("findings", []) if finding_matches(fd, prop, ob)]
         rp = None
         try:
